@@ -71,7 +71,7 @@ func (t *Total) Validate() error {
 func (ct *CategoryTotal) Validate() error {
 	return validation.ValidateStruct(ct,
 		validation.Field(&ct.Code, validation.Required),
-		validation.Field(&ct.Rates),
+		validation.Field(&ct.Rates, validation.Required),
 	)
 }
 
